@@ -98,7 +98,8 @@ PROPS = {
         level='exploration',
         level_text='Seeded histories compare (a) twin objects, (b) the same object re-solved after clearBasis(), bit for bit (status, iteration '
                    'count, basis, all solution vectors), and (c) copy-constructed / assigned objects taken at five kinds of history points: '
-                   'equality of LP, all parameters, observable tolerances, basis, status and solution, identical re-solves, and independence in '
+                   'equality of LP, all parameters, observable tolerances, the state of the random generator that draws the perturbation shifts (hooked private state), '
+                   'basis, status and solution, identical re-solves, and independence in '
                    'both directions under modifications, parameter changes, solves and destruction of the other object (ASan watches dangling '
                    'pointers); (d) state leaking between solves: an object that solved, was modified and had its basis cleared must reach the '
                    'verdict and optimal value of a new object given the same LP (judged on certified, tolerance-robust LPs). Sampling of inputs x configurations x history points.',
@@ -109,7 +110,7 @@ PROPS = {
         stages=lambda t: two_flavour('h_solve', 1200, 5000, 24000, 80000)(t) + [memcheck_stage('h_solve', 96, 640)(t),
                           dict(name='exact-copies-asan', harness='h_exact', flavour='asan', cases=300 if t == 'quick' else 1500),
                           dict(name='exact-copies-opt', harness='h_exact', flavour='opt', cases=1200 if t == 'quick' else 6000)],
-        minima=lambda t: {'memcheck.cases_completed': 90, 'c17.twin_solves': 200, 'c17.resolve_after_clearBasis': 150, 'c17.copy_resolve_compared': 150,
+        minima=lambda t: {'memcheck.cases_completed': 90, 'c17.twin_solves': 200, 'c17.resolve_after_clearBasis': 150, 'c17.copy_resolve_compared': 150, 'c17.copy_random_state_compared': 300, 'c17.copy_random_state_compared.generator-advanced': 100,
                           'c17.independence_next_solve_compared': 200, 'c17.history.judged': 100,
                           'c07.op.copy(ctor)': 150, 'c07.op.copy(assign)': 150},
         eval_counter='cases', distinct_set='nontrivial',
